@@ -30,11 +30,11 @@ def run(ctx):
     ctx.rule('C09.R2', 'deliver_pull: stream into the staging path; transfer_file_from_remote Ok => copy+flush Ok and status.success(); Ok guards rename', floor=4)
     ctx.rule('C09.R3', 'push: cat > STAGE && [complete?] && mv -f STAGE DST; STAGE = DST.copia-tmp', floor=3)
     ctx.rule('C09.R4', 'no file content created at a non-staging path under run_sync_recursive', floor=2)
-    tmp_path_rule(ctx, F)
-    r1(ctx, F)
-    r2(ctx, F)
-    r3(ctx, F)
-    r4(ctx, F)
+    ctx.attempt(tmp_path_rule, ctx, F)
+    ctx.attempt(r1, ctx, F)
+    ctx.attempt(r2, ctx, F)
+    ctx.attempt(r3, ctx, F)
+    ctx.attempt(r4, ctx, F)
 
 
 def tmp_path_rule(ctx, F):
